@@ -11,6 +11,9 @@ RULE = ('seeded random scenarios on REAL directory trees under tempfile.mkdtemp(
         'defaulted, on maps that are empty, pre-populated, layered, or populated before.  Observed: every handle '
         'the factories built (factory, file path, arguments), the whole reachable content to depth 4 with every '
         'layer of handles, the exception class.  Non-trivial: at least one handle was built from a file.')
+RULE += ('  file_exts is handed over in every kind of iterable (list, tuple, set, frozenset, dict, dict view, '
+         'generator, iterator, map object, reversed); the root in ten spellings; pre-existing handles / maps with '
+         'value equality or falsy.')
 ASSUMPTIONS = ['no file or directory name starts with a dot (glob does not list them) — hypothesis ListingOk',
                'the listing handed to the model is what the real glob.iglob returned on the real tree; the '
                'harness checks ListingOk on it (rule directory first, parents first, nothing twice, exactly the '
